@@ -26,6 +26,12 @@ impl Processor {
         let loc = span.locator().clone();
         let input = DefaultFileSystem.read_file(&loc)?;
         let char_span = CharSpan::from(&input, span);
+        let msg = if ariadne::Span::is_empty(&char_span) {
+            // An empty span has no label to carry the location: name the module instead.
+            format!("{} (in {})", msg.to_string(), loc)
+        } else {
+            msg.to_string()
+        };
         let mut builder = Report::build(ReportKind::Error, char_span.clone()).with_message(msg);
         if !ariadne::Span::is_empty(&char_span) {
             builder.add_label(Label::new(char_span).with_color(color))
@@ -35,8 +41,21 @@ impl Processor {
     }
 
     pub fn load(&self, main: &Locator) -> anyhow::Result<ModuleSet> {
-        let mods = oal_compiler::module::load(&mut self.loader(), main)?;
-        Ok(mods)
+        match oal_compiler::module::load(&mut self.loader(), main) {
+            Ok(mods) => Ok(mods),
+            Err(err) => match err.downcast::<oal_compiler::errors::Error>() {
+                // Errors raised by the module loader itself (e.g. invalid import, dependency cycle).
+                Ok(err) => {
+                    let span = match err.span() {
+                        Some(s) => s.clone(),
+                        None => Span::new(main.clone(), 0..0),
+                    };
+                    self.report(span, &err)?;
+                    Err(anyhow!("loading failed"))
+                }
+                Err(err) => Err(err),
+            },
+        }
     }
 
     /// Evaluates a program.
